@@ -19,7 +19,7 @@ def vdot(a, b): return a[0] * b[0] + a[1] * b[1] + a[2] * b[2]
 def vnorm(a): return math.sqrt(vdot(a, a))
 
 
-def gen_probe(rng):
+def gen_probe(rng, asymmetric=None):
     big_n, big_f = tissue.icosphere(1)
     M = tissue.rnd_rot(rng)
     shift = rng.choice([(0, 0, 0), (3 * R, -2 * R, R), (1e3 * R, -1e3 * R, 5e2 * R)])
@@ -38,7 +38,10 @@ def gen_probe(rng):
     tn = tissue.transform(tn, tissue.rnd_rot(rng), p, (e, e, e))
     ca, cb = rng.choice([(0, 0), (2, 0), (0, 2), (0, 1), (3, 0), (4, 0), (0, 4), (3, 2), (1, 0), (2, 2)])
     ids = [rng.randrange(50), 60 + rng.randrange(50)]
-    return dict(kind="probe", place="probe", classes=[cb, ca], cells=[(big_n, big_f), (tn, tf)], lmin=edge * 0.5, cut_adh=cut, cut_rep=cut, ids=ids, level=1, maxcurv=float("inf"),
+    # the two cut-offs differ in a third of the probes (the range of the interaction is the larger one)
+    asym = rng.choice(["equal", "equal", "adhesion_smaller", "repulsion_smaller"]) if asymmetric is None else asymmetric
+    cut_adh = cut * (0.4 if asym == "adhesion_smaller" else 1.0); cut_rep = cut * (0.4 if asym == "repulsion_smaller" else 1.0)
+    return dict(kind="probe", place="probe", classes=[cb, ca], cells=[(big_n, big_f), (tn, tf)], lmin=edge * 0.5, cut_adh=cut_adh, cut_rep=cut_rep, ids=ids, level=1, maxcurv=float("inf"),
                 probe=dict(delta=delta, cut=cut, e=e, normal=nrm, face=(a, b, c), ca=ca, cb=cb))
 
 
